@@ -179,7 +179,7 @@ func (rg *rootGeneratorPipeline) worker(ctx context.Context, wg *sync.WaitGroup,
 				currentNode, err := rg.nodeGenerator.generate(sc.Text(), counter.next())
 				if err != nil {
 					verifPoint("gen.errsend.pre", vid, block)
-					errc <- err
+					sendErr(ctx, errc, err)
 					verifPoint("gen.errsend.post", vid, block)
 					return
 				}
@@ -195,21 +195,21 @@ func (rg *rootGeneratorPipeline) worker(ctx context.Context, wg *sync.WaitGroup,
 
 				if nodes == nil {
 					verifPoint("gen.errsend.pre", vid, block)
-					errc <- errNilStack
+					sendErr(ctx, errc, errNilStack)
 					verifPoint("gen.errsend.post", vid, block)
 					return
 				}
 
 				if !nodes.dfs(currentNode) {
 					verifPoint("gen.errsend.pre", vid, block)
-					errc <- &inputFormatError{row: sc.Text()}
+					sendErr(ctx, errc, &inputFormatError{row: sc.Text()})
 					verifPoint("gen.errsend.post", vid, block)
 					return
 				}
 			}
 			if err := sc.Err(); err != nil {
 				verifPoint("gen.errsend.pre", vid, block)
-				errc <- err
+				sendErr(ctx, errc, err)
 				verifPoint("gen.errsend.post", vid, block)
 				return
 			}
